@@ -34,7 +34,7 @@ template <bool Dyn> struct sl_traits_iter : cc::split_list::traits {
 template <class S> void split_probes(Ctx& c, S& s) { auto const& st = s.statistics(); c.probe("split_bucket_inits", (long)st.m_nInitBucketRecursive.get() + (long)st.m_nInitBucketContention.get()); c.probe("split_buckets_created", (long)st.m_nBucketCount.get()); c.probe("split_bucket_init_contention", (long)st.m_nInitBucketContention.get()); }
 template <class GC, class S, class CFG> struct HSet : SetA<GC, S, CFG> { explicit HSet(const Program& p) { this->s.reset(new S((size_t)p.knob("item_count", 2), (size_t)p.knob("load_factor", 1))); } void probes(Ctx& c) { split_probes(c, *this->s); } };
 template <class GC, class S, class CFG> struct HMap : MapA<GC, S, CFG> { explicit HMap(const Program& p) { this->s.reset(new S((size_t)p.knob("item_count", 2), (size_t)p.knob("load_factor", 1))); } void probes(Ctx& c) { split_probes(c, *this->s); } };
-typedef Cfg<CAPS_FULL, false, false> C_full; typedef Cfg<CAPS_FULL, true, false> C_repl;
+typedef Cfg<CAPS_FULL, false, false> C_full; typedef Cfg<CAPS_FULL, true, false> C_repl; typedef Cfg<CAPS_FULL, false, false, true, true, true> C_lazy_rcu;
 // more keys and insert-heavy programs so that bucket initialisation and table growth happen during the concurrent phase
 void gen(Rng& r, Program& p, int tier, const std::string&) { GenCfg g; g.min_hazards = 12; g.hash_modes = 4; g.nkeys_hot = 5; g.nkeys_cold = 3; g.max_ops = 6; gen_program(r, p, tier, g); p.set("item_count", r.pick({2, 2, 4})); p.set("load_factor", 1); }  // a bucket table smaller than 2 is outside the contract (the list starts with 2 logical buckets; asserted in debug builds)
 #define COMPS(f) "real: " f " cds/intrusive/split_list.h details/split_list_base.h (bucket table, init_bucket recursion, split-order keys), ordered list, SMR; simulated: scheduler + faults, degenerate hashes, load factor 1 and 1-2 initial buckets so growth happens mid-run; oracle: linearizability vs key->instance map, quiescent traversal, size()"
@@ -44,7 +44,7 @@ typedef cc::SplitListSet<HP, Item, sl_traits<cc::michael_list_tag, true>> S1; HS
 typedef cc::SplitListSet<DHP, Item, sl_traits<cc::michael_list_tag, false>> S2; HS(s2, "hash.SplitListSet_Michael_DHP_static", DHP, S2, C_full, "cds/container/split_list_set.h")
 typedef cc::SplitListSet<RCU_GPB, Item, sl_traits<cc::michael_list_tag, true>> S3; HS(s3, "hash.SplitListSet_Michael_RCU_gpb", RCU_GPB, S3, C_full, "cds/container/split_list_set_rcu.h cds/intrusive/split_list_rcu.h")
 typedef cc::SplitListSet<HP, Item, sl_traits_lazy<true>> S4; HS(s4, "hash.SplitListSet_Lazy_HP_dyn", HP, S4, C_full, "cds/container/split_list_set.h")
-typedef cc::SplitListSet<RCU_GPI, Item, sl_traits_lazy<false>> S5; HS(s5, "hash.SplitListSet_Lazy_RCU_gpi_static", RCU_GPI, S5, C_full, "cds/container/split_list_set_rcu.h")
+typedef cc::SplitListSet<RCU_GPI, Item, sl_traits_lazy<false>> S5; HS(s5, "hash.SplitListSet_Lazy_RCU_gpi_static", RCU_GPI, S5, C_lazy_rcu, "cds/container/split_list_set_rcu.h")
 typedef cc::SplitListSet<HP, Item, sl_traits_iter<true>> S6; HS(s6, "hash.SplitListSet_Iterable_HP", HP, S6, C_repl, "cds/container/split_list_set.h")
 typedef cc::SplitListSet<DHP, Item, sl_traits_iter<false>> S7; HS(s7, "hash.SplitListSet_Iterable_DHP_static", DHP, S7, C_repl, "cds/container/split_list_set.h")
 typedef cc::SplitListMap<HP, long, long, sl_traits<cc::michael_list_tag, true>> M1; HM(m1, "hash.SplitListMap_Michael_HP", HP, M1, C_full, "cds/container/split_list_map.h")
